@@ -30,3 +30,13 @@ Theorem c13_roundtrip :
   forall d b v, q_deserialize deV d b (q_serialize serV (mkQ d b v)) = Some (mkQ d b v).
 Proof. intros H d b v. unfold q_deserialize, q_serialize. cbn. now rewrite H. Qed.
 End S.
+
+(* ---- Serialize / Deserialize of the source forward to the storage type and wrap the value unchanged (Gen/DelegSrc.v is
+   regenerated from src/system.rs on every run) ---- *)
+From Coq Require Import String List Bool.
+From UomV Require Import Model.DelegSrc Gen.DelegSrc Spec.DelegTie.
+Import ListNotations.
+Theorem c13_serde_sources_forward :
+  forallb (fun e => negb (in_list (dl_fn e) ["serialize"%string; "deserialize"%string]) || deleg_ok e) src_delegations = true
+  /\ covers src_delegations "src/system.rs"%string ["serialize"%string; "deserialize"%string] = true.
+Proof. split; vm_compute; reflexivity. Qed.
